@@ -271,6 +271,10 @@ class _Context:
         if parent_type == 'trailer':
             # We are only interested in first level names.
             return
+        if parent_type == 'argument' and name is name.parent.children[0] \
+                and name.parent.children[1] == '=':
+            # The name of a keyword argument is not a variable.
+            return
 
         if parent_type == 'global_stmt':
             self._global_names.append(name)
